@@ -18,6 +18,12 @@ def T(quick, thorough, floor=200, **kw):
 
 
 PROPS = {
+    "C15": T(6000, 150000,
+             rule="matching: graph from blossom-prone families (odd cycles with tails, Petersen, blocks, sparse gnp, multigraphs; "
+                  "75% undirected, n<=9, 12%: n<=14) on one random encoding of 9, both algorithms, all accessors, optimum by bitmask DP; "
+                  "flow: directed capacitated multigraph (antiparallel/parallel edges, loops, zero capacities) or the flow_cancel family "
+                  "(shortest augmenting path must later be cancelled), random s!=t, Graph/StableGraph-with-holes, u32/u64/f64; "
+                  "non-trivial = both inputs have >=3 nodes and >=2 edges; distinct = hash of both inputs"),
     "C16": T(12000, 300000,
              rule="dominators: random (mostly directed) multigraph from 21 families (reducible and irreducible flow graphs, "
                   "unreachable parts), random root, n<=8 (10%: n<=13), one random encoding of 9; articulation points: random "
